@@ -218,6 +218,24 @@ unexpected_cfgs = { level = "allow" }
 """
 
 
+def extract_struct(text, name):
+    """Source text of `pub struct name {..}` including the attribute lines directly above it."""
+    m = re.search(r"(?m)^(?:#\[[^\n]*\]\n)*pub struct %s\b[^{]*\{" % re.escape(name), text)
+    if not m:
+        raise GenError("struct %s not found for extraction" % name)
+    depth, k = 0, m.end() - 1
+    while True:
+        c = text[k]
+        if c == "{":
+            depth += 1
+        elif c == "}":
+            depth -= 1
+            if depth == 0:
+                break
+        k += 1
+    return text[m.start():k + 1]
+
+
 def extract_fn(text, name):
     """Source text of `fn name(...) {...}` (with its attributes/visibility) by brace matching."""
     m = re.search(r"(?m)^[ \t]*(?:pub(?:\([a-z]+\))? )?fn %s\b" % re.escape(name), text)
@@ -290,6 +308,15 @@ def gen_lift():
         body = extract_fn(open(os.path.join(C.REPO, rp)).read(), fname)
         _write_if_changed(os.path.join(dst, "src", to), tmpl % (fname, rp, body))
         keep.add(os.path.join(dst, "src", to))
+    # Settings: the struct definition plus `merge` and `or`, verbatim
+    stext = open(os.path.join(C.REPO, "src/settings.rs")).read()
+    body = extract_struct(stext, "Settings").replace("pub struct Settings {", "pub struct Settings {", 1)
+    body = re.sub(r"(?m)^  (\w+): ", r"  pub \1: ", body)      # fields made pub so the shim's placeholder constructors can name them
+    sfile = ("// GENERATED at run time: `struct Settings`, `Settings::merge`, `or`, `or_defaults` and `default_data_dir` copied from /repo/src/settings.rs\n"
+             "// (fields are made `pub`; nothing else is changed)\nuse super::*;\nuse super::settings_shim::ContextErr as Context;\n\n%s\n\nimpl Settings {\n%s\n}\n"
+             % (body, "\n\n".join(extract_fn(stext, n) for n in ("merge", "or", "or_defaults", "default_data_dir"))))
+    _write_if_changed(os.path.join(dst, "src", "lift/settings_extract.rs"), sfile)
+    keep.add(os.path.join(dst, "src", "lift/settings_extract.rs"))
     for to, (rp, fnames, tmpl) in LIFT_EXTRACTS_MULTI.items():
         text = open(os.path.join(C.REPO, rp)).read()
         body = "\n\n".join(extract_fn(text, fn) for fn in fnames)
